@@ -735,3 +735,23 @@ Definition core_spec (S : spec) : bool :=
   forallb (fun p => core_top (snd p) && str_eqb (cls (fst p)) (fst p) && nonempty (fst p)
                     && forallb (fun k => negb (mem_str k (map fst S))) (prop_keys (snd p))) S
   && nodup_strs (map fst S).
+
+(* ------------------------------------------------------------------ static guard of C02_partial: acyclic references.
+   [rk] is a rank witness: every $ref points to a declared schema of strictly smaller rank; the depth condition says
+   the deepest $ref chain (4 parser frames per hop at most) stays within the depth limit. *)
+Fixpoint refs (nd : node) {struct nd} : list str :=
+  match nd with
+  | Ref m => [m]
+  | Obj ps _ => (fix go (ps : list (str * node)) := match ps with [] => [] | (_, x) :: r => refs x ++ go r end) ps
+  | Arr y | MapN y => refs y
+  | OneOf l | AnyOf l | AllOf l => (fix go (l : list node) := match l with [] => [] | x :: r => refs x ++ go r end) l
+  | _ => []
+  end.
+Definition rank_of (rk : list (str * nat)) (n : str) : nat := match alookup n rk with Some k => k | None => O end.
+(* every $ref points to a declared schema of strictly smaller rank: the reference graph is acyclic *)
+Definition ranked_b (rk : list (str * nat)) (S : spec) : bool :=
+  forallb (fun p => forallb (fun m => match alookup m S with Some _ => true | None => false end
+                                      && Nat.ltb (rank_of rk m) (rank_of rk (fst p))) (refs (snd p))) S.
+Definition depth_ok (rk : list (str * nat)) (S : spec) (md : N) : bool :=
+  forallb (fun p => (4 * N.of_nat (rank_of rk (fst p)) + 4 <=? md)%N) S.
+
